@@ -44,8 +44,12 @@ def is_long_date_spec(long_date: str) -> bool:
     """Returns True iff {long_date} is a valid long date."""
     return (
         len(long_date) == 10
-        and {long_date[4], long_date[7]} == {"-"}
-        and all(ch.isdigit() for ch in long_date.replace("-", ""))
+        and long_date[4] == "-"
+        and long_date[7] == "-"
+        and all(
+            ch.isdigit()
+            for ch in long_date[:4] + long_date[5:7] + long_date[8:]
+        )
     )
 
 
